@@ -41,13 +41,22 @@ func main() {
 	// without bound must not take the machine down.  The worker gives up (exit 3 = machinery
 	// trouble for the driver, which still reports what reproduces from the replay files).
 	go func() {
-		sample := []metrics.Sample{{Name: "/memory/classes/total:bytes"}}
+		sample := []metrics.Sample{{Name: "/memory/classes/total:bytes"}, {Name: "/memory/classes/heap/released:bytes"}, {Name: "/memory/classes/heap/stacks:bytes"}, {Name: "/memory/classes/heap/objects:bytes"}}
 		limit := uint64(10 << 30)
-		for {
+		memlog := os.Getenv("VERIF_MEMLOG") != ""
+		for n := 0; ; n++ {
 			time.Sleep(250 * time.Millisecond)
 			metrics.Read(sample)
-			if sample[0].Value.Kind() == metrics.KindUint64 && sample[0].Value.Uint64() > limit {
-				fmt.Fprintf(os.Stderr, "worker: memory use exceeded %d bytes; giving up (machinery safety net, not a verdict)\n", limit)
+			if sample[0].Value.Kind() != metrics.KindUint64 {
+				continue
+			}
+			// memory the process holds: what the runtime mapped minus what it gave back
+			held := sample[0].Value.Uint64() - sample[1].Value.Uint64()
+			if memlog && n%8 == 0 {
+				fmt.Fprintf(os.Stderr, "mem: index=%d held=%dM released=%dM stacks=%dM objects=%dM\n", sim.CurIndex.Load(), held>>20, sample[1].Value.Uint64()>>20, sample[2].Value.Uint64()>>20, sample[3].Value.Uint64()>>20)
+			}
+			if held > limit {
+				fmt.Fprintf(os.Stderr, "worker: memory use exceeded %d bytes at run index %d (stacks %d, heap objects %d); giving up (machinery safety net, not a verdict)\n", limit, sim.CurIndex.Load(), sample[2].Value.Uint64(), sample[3].Value.Uint64())
 				os.Exit(3)
 			}
 		}
